@@ -24,8 +24,8 @@ func Load(env types.EnvType) {
 	call.CallOverrideFN(env, "reset!", reset_BANG)
 	call.Call(env, future_call)
 	call.Call(env, future_cancel)
-	call.CallOverrideFN(env, "future-cancelled?", func(f *Future) (bool, error) { return f.Cancelled, nil })
-	call.CallOverrideFN(env, "future-done?", func(f *Future) (bool, error) { return f.Done, nil })
+	call.CallOverrideFN(env, "future-cancelled?", func(f *Future) (bool, error) { return f.IsCancelled(), nil })
+	call.CallOverrideFN(env, "future-done?", func(f *Future) (bool, error) { return f.IsDone(), nil })
 	call.CallOverrideFN(env, "future?", func(f MalType) (bool, error) { return Q[*Future](f), nil })
 	call.Call(env, new_future_call)
 }
@@ -125,6 +125,7 @@ type Future struct {
 	CancelFunc context.CancelFunc
 	Done       bool
 	Cancelled  bool
+	mu         sync.Mutex // guards Done and Cancelled
 
 	Fn     MalFunc
 	Meta   MalType
@@ -144,8 +145,12 @@ func NewFuture(ctx context.Context, fn MalFunc) *Future {
 		Fn:         fn,
 	}
 	go func() {
-		defer func() { f.Done = true }()
 		res, err := Apply(ctx, fn, nil)
+		// mark the future done before the outcome can be observed: once a deref has returned,
+		// future-done? is true and a late future-cancel is refused
+		f.mu.Lock()
+		f.Done = true
+		f.mu.Unlock()
 		if err != nil {
 			f.ErrChan <- err
 			return
@@ -157,11 +162,27 @@ func NewFuture(ctx context.Context, fn MalFunc) *Future {
 }
 
 func (f *Future) Cancel() bool {
+	f.mu.Lock()
+	defer f.mu.Unlock()
 	if !f.Done {
 		f.Cancelled = true
 		f.Done = true
 		f.CancelFunc()
 	}
+	return f.Cancelled
+}
+
+// IsDone reports whether the future has completed or has been cancelled.
+func (f *Future) IsDone() bool {
+	f.mu.Lock()
+	defer f.mu.Unlock()
+	return f.Done
+}
+
+// IsCancelled reports whether the future was cancelled before it completed.
+func (f *Future) IsCancelled() bool {
+	f.mu.Lock()
+	defer f.mu.Unlock()
 	return f.Cancelled
 }
 
